@@ -7,7 +7,8 @@ import sys
 
 from hypothesis import strategies as st
 
-IDENT_DIRS = ['zqpkg', 'zqsub', 'tests_zqd', 'ftests_zqd', 'zqa1', '_zqpriv', 'tests_zq', 'zqlib']   # (never installed names)
+IDENT_DIRS = ['zqpkg', 'zqsub', 'tests_zqd', 'ftests_zqd', 'zqa1', '_zqpriv', 'tests_zq', 'zqlib',
+              'Zqpkg', 'ZQsub', 'tests_Zqd', 'Zqa1']     # (mixed case: ordering is by code point)   # (never installed names)
 ODD_DIRS = ['1zqnum', 'zq-dash', 'zq.dot', 'zq space', 'tests_zq-x']
 IGNORED_DIRS = ['.git', 'node_modules', '__pycache__', 'CVS', '.svn', '_darcs']
 
@@ -45,7 +46,7 @@ def trees(draw, max_depth=3, unique_stems=True, bytecode=False):
         n = draw(st.integers(2, 5)) if 'tests' in dirname else draw(st.integers(0, 4))
         for _ in range(n):
             kind = draw(st.sampled_from(['tests_', 'tests_', 'test_', 'test_', 'ftests_', 'other_', 'checks_', 'xtests_', 'atests_',
-                                          'ztest_']))
+                                          'ztest_', 'tests_Z', 'test_Z']))
             ext = draw(st.sampled_from(['.py', '.py', '.py', '.py', '.txt', '.pyx', '.py.bak', '.PY']))
             out.append(stem(kind) + ext)
         if bytecode:
